@@ -117,6 +117,7 @@ func FromBatch(b spec.Batch) *Content {
 		fieldID[n] = i
 	}
 	dvFields := map[string]bool{}
+	shapes := map[string]map[uint64]string{}
 
 	for di, d := range b.Docs {
 		docNum := uint64(di)
@@ -165,6 +166,12 @@ func FromBatch(b spec.Batch) *Content {
 			}
 			if f.DV {
 				dvFields[f.Name] = true
+			}
+			if f.Shape != nil {
+				if shapes[f.Name] == nil {
+					shapes[f.Name] = map[uint64]string{}
+				}
+				shapes[f.Name][uint64(docNum)] = string(f.Shape) // the last instance wins
 			}
 		}
 		for _, f := range d.Composite {
@@ -260,6 +267,13 @@ func FromBatch(b spec.Batch) *Content {
 				}
 				c.DV[name][h.Doc] = append(c.DV[name][h.Doc], term)
 			}
+		}
+		// the encoded shape of a geo-shape field is one more doc-value term of the document
+		for d, sh := range shapes[name] {
+			if c.DV[name] == nil {
+				c.DV[name] = map[uint64][]string{}
+			}
+			c.DV[name][d] = append(c.DV[name][d], sh)
 		}
 		for d := range c.DV[name] {
 			sort.Strings(c.DV[name][d])
